@@ -440,6 +440,7 @@ type Contract struct {
 	OnCalls    map[string]*OnCall
 	Auto       bool // generated by a sweep directive: uncontracted callees are opaque, never inlined
 	NoTypeInv  bool
+	InlineCallees map[string]bool // callees (by name) inlined in this unit instead of using their contract
 	AbstractPtrs bool // escaping interior pointers become unknown pointers
 	NoSafety   bool // safety obligations (index, nil, slice, ...) of this unit are not emitted: not decided
 	OvfCheck   bool
@@ -498,7 +499,7 @@ type SpecDB struct {
 
 var clauseKeywords = map[string]bool{"func": true, "requires": true, "ensures": true, "modifies": true, "allocbound": true,
 	"loop": true, "mode": true, "trusted": true, "prop": true, "pred": true, "lemma": true, "pure": true, "inline": true,
-	"split": true, "noverify": true, "ghost": true, "timeout": true, "opaque": true, "recpred": true, "recfun": true, "oncall": true, "sweep": true, "typeinv": true, "notypeinv": true, "abstractptrs": true, "nosafety": true, "ovfcheck": true, "assumeinv": true, "defines": true, "assume-unreachable": true, "wraparith": true}
+	"split": true, "noverify": true, "ghost": true, "timeout": true, "opaque": true, "recpred": true, "recfun": true, "oncall": true, "sweep": true, "typeinv": true, "notypeinv": true, "abstractptrs": true, "inlinecallees": true, "nosafety": true, "ovfcheck": true, "assumeinv": true, "defines": true, "assume-unreachable": true, "wraparith": true}
 
 // LoadSpecs parses every verif_contracts*.go in dir (package name pkg).
 func LoadSpecs(db *SpecDB, dir, pkg string) error {
@@ -668,6 +669,13 @@ func loadSpecFile(db *SpecDB, file, pkg string) error {
 				cur.Pure = true
 			case "notypeinv":
 				cur.NoTypeInv = true
+			case "inlinecallees":
+				if cur.InlineCallees == nil {
+					cur.InlineCallees = map[string]bool{}
+				}
+				for _, n := range strings.Fields(rest) {
+					cur.InlineCallees[n] = true
+				}
 			case "abstractptrs":
 				cur.AbstractPtrs = true
 			case "nosafety":
